@@ -58,7 +58,12 @@ def worker(args, scratch):
         if spec is None:
             return {"status": 200, "body": b"unregistered"}
         return spec
-    w = wproxy.World(scratch, runtime="multi:8", handler=handler, log_level="Info")  # Info: connection summaries are logged
+    # a single-threaded runtime makes the scheduling between the per-connection server task and the upstream connection task tight
+    w = wproxy.World(scratch, runtime=args.get("runtime", "multi:8"), handler=handler, log_level="Info")
+    burners = []
+    if args.get("stress"):
+        import subprocess, sys
+        burners = [subprocess.Popen([sys.executable, "-c", "while True: pass"]) for _ in range(args["stress"])]
     try:
         root = w.identity("root", "helper", [])
         guid, secret = "eeeeeeee-0000-4000-8000-000000000001", "%064x" % r.getrandbits(256)
@@ -97,6 +102,11 @@ def worker(args, scratch):
                         if rr.random() < 0.35 and size:
                             chunked = [rr.choice([1, 3, 100, 5000, 65536]) for _ in range(64)]
                     spec = gen_response(rr, vid, args["big"])
+                    if depth >= 2 and len(batch) < depth - 1 and rr.random() < 0.7 and spec["status"] not in (204, 304):
+                        # a large content-length response directly followed by an already buffered (pipelined) request
+                        n_big = rr.choice([70000, 200000, 800000])
+                        spec["framing"] = "cl"; spec.pop("chunks", None)
+                        spec["body"] = vid.encode() + b"|" + (bytes(rr.getrandbits(8) for _ in range(1024)) * (n_big // 1024))
                     if spec["framing"] == "close":
                         closed = True
                     with lock:
@@ -111,9 +121,11 @@ def worker(args, scratch):
                     segs = [rr.choice([1, 2, 5, 17, 100, 1400, 9000]) for _ in range(60)]
                 try:
                     conn.send(wire, segments=segs)
+                    prev = None
                     for (vid, method, target, hs, body, chunked, spec, raw) in batch:
                         resp = conn.read_response(method.encode())
                         check(vid, method, target, hs, body, chunked, spec, resp, dest, len(batch), segs is not None)
+                        prev = [method, spec["status"], spec["framing"], len(spec["body"]), bool(spec.get("segments")), len(body), chunked is not None]
                 except Exception as e:  # noqa
                     viol("exchange-failed", {"conn": ci, "dest": dest, "ids": [b[0] for b in batch], "err": repr(e)})
                     break
@@ -189,6 +201,8 @@ def worker(args, scratch):
         for p in w.shim.panics():
             viol("panic:%s" % p.get("location"), p)
     finally:
+        for b in burners:
+            b.kill()
         w.close()
     return res
 
@@ -202,7 +216,7 @@ def run(tier, rep):
                             "distinct by (request framing, response framing, size classes, depth, segmentation, method)")
     shards = 8 if tier == "quick" else 16
     args = [{"shard": i, "tier": tier, "connections": 160 if tier == "quick" else 1500, "concurrency": 8 if i % 2 else 16, "max_per_conn": 15,
-             "exempt_max": (2 << 20) if tier == "quick" else (8 << 20), "big": i % 3 == 0} for i in range(shards)]
+             "exempt_max": (2 << 20) if tier == "quick" else (8 << 20), "big": i % 3 == 0, "runtime": ["multi:8", "multi:8", "multi:4", "current"][i % 4], "stress": 0 if i % 4 == 3 else 8} for i in range(shards)]
     for res in sandbox.run_many("vf.props.c14", "worker", args, workers=shards, timeout=3000):
         rep.merge_worker(res)
     rep.assumptions += ["header order across different names and header-name letter case are not compared (no meaning in HTTP; hyper normalises names)",
